@@ -321,6 +321,7 @@ int main(int argc, char** argv) {
     return 0;
   }
   int nv = (int)a.geti("nverts", 3);
+  long maxsimp = a.geti("maxsimp", 1000);  // bound on the number of simplices of the enumerated complexes
   std::vector<double> F;
   {
     std::string fs = a.get("F", "0,1,2");
@@ -353,6 +354,7 @@ int main(int argc, char** argv) {
           if (kv.second != v) return;
         }
       }
+      if ((long)m.s.size() > maxsimp) return;
       if (!mine()) return;
       vf::set_case(model_case(part, m));
       dispatch(part, m);
